@@ -595,6 +595,14 @@ class Pointwise:
                 return f"(min {self.expr(e.args[0], mask)} {self.expr(e.args[1], mask)})"
             if ch == "np.where" and len(e.args) == 3 and not e.keywords:
                 return f"(if {self.cond(e.args[0])} then {self.expr(e.args[1], mask)} else {self.expr(e.args[2], mask)})"
+            if ch == "np.expand_dims" and len(e.args) == 2 and not e.keywords:
+                return self.expr(e.args[0], mask)          # broadcasting: the same cell value
+            if ch == "np.sum" and len(e.args) == 1 and [k.arg for k in e.keywords] == ["axis"] \
+                    and isinstance(e.keywords[0].value, ast.Constant) and e.keywords[0].value.value == 1:
+                n0 = self.name_of(e.args[0])
+                if n0 is not None:
+                    self.notes.append(f"`{ast.unparse(e)}` is the parameter `{n0}_rowsum` (the sum of the cell's row)")
+                    return self.var(n0 + "_rowsum")
             if ch == "np.tile" and len(e.args) == 2 and not e.keywords:
                 return self.expr(e.args[0], mask)          # broadcasting: the same cell value
             if ch == "np.nan_to_num" and len(e.args) == 1 and [k.arg for k in e.keywords] == ["posinf"] \
@@ -770,6 +778,58 @@ def gen_formulas(trees, rec_tree):
                     if isinstance(tg, ast.Name) and tg.id == "production_max":
                         return sel
         raise Untranslatable("shortage branch of calc_production not found")
+    def between(first, last, skip_targets=()):
+        """the top-level statements of a function from the one assigning `first` to the one assigning / writing `last`,
+        without debug logging, verification hooks and `raise` guards"""
+        def tgt(st):
+            if isinstance(st, ast.Assign) and len(st.targets) == 1:
+                return Pointwise.name_of(None, st.targets[0])
+            if isinstance(st, ast.Expr) and isinstance(st.value, ast.Call):
+                for k in st.value.keywords:
+                    if k.arg == "out":
+                        return Pointwise.name_of(None, k.value)
+            return None
+
+        def sel(fn):
+            out, on = [], False
+            for st in fn.body:
+                t = tgt(st)
+                if t == first:
+                    on = True
+                if on and not isinstance(st, ast.If) and t not in skip_targets:
+                    out.append(st)
+                if on and t == last and (first != last or len(out) >= 1):
+                    if not any(tgt(x) == last for x in fn.body[fn.body.index(st) + 1:] if not isinstance(x, ast.If)):
+                        return out
+            raise Untranslatable(f"statements {first} .. {last} not found")
+        return sel
+    dist = find_func(base, "distribute_production")
+    parts.append(lean_formula(
+        "delivery_cell", dist,
+        "`ARIOBaseModel.distribute_production`, one cell of `distributed_production` (what a client column receives).",
+        fixed_params=["entire_demand", "entire_demand_rowsum", "production"], body=between("demand_shares", "distributed_production"),
+        result="distributed_production"))
+    parts.append(lean_formula(
+        "stock_use_cell", dist, "`distribute_production`, one (input, industry) cell of `stock_use`.",
+        fixed_params=["production", "tech_mat"], body=between("stock_use", "stock_use"), result="stock_use"))
+    def inside_if(marker, target):
+        """the single assignment to `target` inside the top-level `if` whose test mentions `marker`"""
+        def sel(fn):
+            for st in fn.body:
+                if isinstance(st, ast.If) and marker in ast.unparse(st.test):
+                    got = [s2 for s2 in st.body if isinstance(s2, ast.Assign) and len(s2.targets) == 1
+                           and Pointwise.name_of(None, s2.targets[0]) == target]
+                    if len(got) == 1:
+                        return got
+            raise Untranslatable(f"assignment to {target} under `if … {marker} …` not found")
+        return sel
+    parts.append(lean_formula(
+        "stock_update_cell", dist, "`distribute_production`, one (input, industry) cell of the inventory update "
+        "(made unless `np.allclose(stock_add, stock_use)`).",
+        fixed_params=["inputs_stock", "stock_use", "stock_add"], body=inside_if("allclose", "inputs_stock"), result="inputs_stock"))
+    parts.append(lean_formula(
+        "rebuild_demand_cell", dist, "`distribute_production`, one cell of the reconstruction-demand ledger after delivery.",
+        fixed_params=["rebuild_demand", "rebuild_prod"], body=inside_if("rebuild_demand is not None", "rebuild_demand"), result="rebuild_demand"))
     parts.append(lean_formula(
         "production_max_cell", find_func(base, "calc_production"),
         "`ARIOBaseModel.calc_production`, shortage branch, one (input, industry) cell of `production_max` "
